@@ -178,7 +178,6 @@ def keyless(t, job, part):
             elif fn == 'C_GenerateKey': kw = dict(mech=x.M(mech), tmpl=x.T([('CKA_TOKEN', False), ('CKA_PRIVATE', False), ('CKA_VALUE_LEN', 16), ('CKA_SENSITIVE', False), ('CKA_EXTRACTABLE', True)]))
             else: kw = dict(mech=x.M(mech), pub=x.T([('CKA_TOKEN', False), ('CKA_PRIVATE', False), ('CKA_MODULUS_BITS', 1024), ('CKA_PUBLIC_EXPONENT', b'\x01\x00\x01'), ('CKA_EC_PARAMS', K.EC['params'])]),
                            priv=x.T([('CKA_TOKEN', False), ('CKA_PRIVATE', False), ('CKA_SENSITIVE', False), ('CKA_EXTRACTABLE', True)]))
-            if mech in ('CKM_DH_PKCS_PARAMETER_GEN', 'CKM_DSA_PARAMETER_GEN') and advertised and conf != 'ALL' and fn == 'C_GenerateKey': pass
             r = x.call(fn, s=t.so, **kw); ok = r['rv'] == 0
             live = bool(req and req[0] == fn and mech in job['all_adv'])
             part.case((conf, fn, mech), nontrivial=live); part.count('start_calls')
